@@ -3,6 +3,7 @@
 package main
 
 import (
+	"encoding/json"
 	"flag"
 	"fmt"
 	"os"
@@ -101,4 +102,12 @@ func main() {
 	if len(r.Violations) > 0 {
 		os.Exit(1)
 	}
+}
+
+func readJSONFile(path string, v interface{}) error {
+	b, err := os.ReadFile(path)
+	if err != nil {
+		return err
+	}
+	return json.Unmarshal(b, v)
 }
